@@ -2825,8 +2825,8 @@ fn parse_duration_to_seconds(duration: &str) -> usize {
             if let Ok(num) = time_part[..num_end].parse::<usize>() {
                 match time_part.chars().nth(num_end) {
                     Some('S') => num,        // seconds
-                    Some('M') => num * 60,   // minutes to seconds
-                    Some('H') => num * 3600, // hours to seconds
+                    Some('M') => num.saturating_mul(60), // minutes to seconds
+                    Some('H') => num.saturating_mul(3600), // hours to seconds
                     _ => num,
                 }
             } else {
